@@ -44,6 +44,38 @@ func objectSchemas(dialect string) map[string]*schema.Schema {
 		t.AddIndexes(ix)
 		s.AddTables(t)
 		out["mysql-index-part-attrs"] = s
+		// a primary key over column prefixes
+		s2 := schema.New("app")
+		t2 := schema.NewTable("docs").SetSchema(s2)
+		slug := &schema.Column{Name: "slug", Type: &schema.ColumnType{Type: &schema.StringType{T: "varchar", Size: 255}, Raw: "varchar(255)"}}
+		body := &schema.Column{Name: "body", Type: &schema.ColumnType{Type: &schema.StringType{T: "text"}, Raw: "text"}}
+		t2.AddColumns(slug, body)
+		pk := &schema.Index{Unique: true}
+		pk.AddParts(&schema.IndexPart{C: slug, Attrs: []schema.Attr{&mysql.SubPart{Len: 32}}}, &schema.IndexPart{C: body, Attrs: []schema.Attr{&mysql.SubPart{Len: 64}}})
+		t2.SetPrimaryKey(pk)
+		s2.AddTables(t2)
+		out["mysql-primary-key-prefix"] = s2
+	}
+	if dialect == "postgres" {
+		// types without their optional parameters, built as objects (what "no length" means must survive the round trip)
+		s := schema.New("public")
+		t := schema.NewTable("unparam").SetSchema(s)
+		for _, c := range []struct {
+			n   string
+			t   schema.Type
+			raw string
+		}{
+			{"vb", &postgres.BitType{T: "bit varying"}, "bit varying"},
+			{"vc", &schema.StringType{T: "character varying"}, "character varying"},
+			{"num", &schema.DecimalType{T: "numeric"}, "numeric"},
+			{"ts", &schema.TimeType{T: "timestamp without time zone"}, "timestamp without time zone"},
+			{"tm", &schema.TimeType{T: "time without time zone"}, "time without time zone"},
+			{"iv", &postgres.IntervalType{T: "interval"}, "interval"},
+		} {
+			t.AddColumns(&schema.Column{Name: c.n, Type: &schema.ColumnType{Type: c.t, Raw: c.raw, Null: true}})
+		}
+		s.AddTables(t)
+		out["pg-types-without-parameters"] = s
 	}
 	return out
 }
